@@ -61,13 +61,21 @@ type runner struct {
 	nReplaced    int
 	nsteps       int
 	last         bool
+	dumpEvery    int
+	// spec-level account-nonce ledger, independent of the model and of the node's ledger state:
+	// next nonce of a sender = 1 + the highest nonce of the sender in the blocks this harness added.
+	specNext [nSenders]uint64
 }
 
 // step records one operation with its observed result; the complete state is attached to every
 // third state-changing step and to the last one (a state difference also shows in later results).
 func (r *runner) step(op, obs string, withDump bool) {
 	r.nsteps++
-	if withDump && (r.nsteps%3 == 0 || r.last) {
+	every := r.dumpEvery
+	if every == 0 {
+		every = 3
+	}
+	if withDump && (r.nsteps%every == 0 || r.last) {
 		r.steps = append(r.steps, fmt.Sprintf("S1 (%s) (%s) %s", op, obs, r.dump()))
 	} else {
 		r.steps = append(r.steps, fmt.Sprintf("S0 (%s) (%s)", op, obs))
@@ -215,7 +223,7 @@ func (r *runner) propose() {
 	seen := map[common.Uint256]bool{}
 	next := map[int]uint64{}
 	for i := 0; i < nSenders; i++ {
-		next[i] = r.acctNonce(i)
+		next[i] = r.specNext[i]
 	}
 	run := map[int]int{}
 	for _, m := range out {
@@ -231,9 +239,16 @@ func (r *runner) propose() {
 			}
 		}
 		if m.ref.S >= 0 {
-			if uint64(m.tx.Nonce) != next[m.ref.S] {
-				r.fail("proposal:nonce-run", "the sender's proposed transactions are not a run of consecutive nonces from the account nonce",
-					map[string]interface{}{"sender": m.ref.S, "nonce": m.tx.Nonce}, fmt.Sprintf("expected %d", next[m.ref.S]))
+			n := uint64(m.tx.Nonce)
+			detail := map[string]interface{}{"sender": m.ref.S, "nonce": n, "position_in_run": run[m.ref.S],
+				"account_nonce": r.specNext[m.ref.S], "ledger_height": r.height()}
+			switch {
+			case n < r.specNext[m.ref.S]:
+				r.fail("proposal:starts-below-account-nonce", "a proposed EVM transaction has a nonce below the sender's account nonce (1 + highest committed nonce)",
+					detail, fmt.Sprintf("expected %d", next[m.ref.S]))
+			case n != next[m.ref.S]:
+				r.fail("proposal:gap", "the sender's proposed transactions are not a run of consecutive nonces starting at the account nonce",
+					detail, fmt.Sprintf("expected %d", next[m.ref.S]))
 			}
 			next[m.ref.S] = uint64(m.tx.Nonce) + 1
 			run[m.ref.S]++
@@ -329,6 +344,15 @@ func (r *runner) exec(op Op) {
 			for _, m := range ms {
 				if m.onChain == 0 {
 					m.onChain = h
+				}
+				if m.ref.S >= 0 && uint64(m.tx.Nonce)+1 > r.specNext[m.ref.S] {
+					r.specNext[m.ref.S] = uint64(m.tx.Nonce) + 1
+				}
+			}
+			for i := 0; i < nSenders; i++ {
+				if got := r.acctNonce(i); got != r.specNext[i] {
+					r.fail("ledger:account-nonce-differs-from-spec", "the ledger's EVM account nonce is not 1 + the highest committed nonce of the sender",
+						map[string]interface{}{"sender": i, "ledger": got}, r.specNext[i])
 				}
 			}
 			r.chain = append(r.chain, ms)
@@ -468,5 +492,16 @@ func Run(c *hx.Ctx) {
 	for i := 0; i < total; i++ {
 		generate(c, n, i)
 		n++
+	}
+	// long contiguous AddBlock histories: past the configured window by 1, 2, window, 2*window+1
+	w := sourceWindow(c)
+	for rep := 0; rep < c.N(1, 10); rep++ {
+		for _, extra := range []int{1, 2, w, 2*w + 1} {
+			if w+extra > 70 {
+				extra = 70 - w
+			}
+			generateLong(c, n, w, extra)
+			n++
+		}
 	}
 }
